@@ -21,6 +21,8 @@ pub fn instances(tier: &str) -> Vec<String> {
         v.push(format!("solve:n={},m1={},m2={}", n, m1, m2));
         v.push(format!("det:n={},m1={},m2={}", n, m1, m2));
     }
+    // element-wise arithmetic is ONE IEEE operation per entry (props/fparith.rs)
+    v.push("fp_arith:of=banded,n=3,m1=1,m2=1".into());
     v
 }
 
